@@ -25,7 +25,6 @@ POOLS = {
     'datetime': (['2020-01-01T00:00:00.000000Z', '2019-12-31T23:59:59.999999Z', '2020-01-01T00:00:00.000001Z',
                   '1999-05-05T10:00:00.000000Z', '2020-10-01T00:00:00.000000Z'], lambda v: v),
     'sequence': (['1', '2', '3', '10', '33', '9'], lambda v: int(v)),
-    'sequence:alt': (['1', '01', '2', '10', '010', '9'], lambda v: int(v)),
 }
 MINMAX_TYPES = [t for t in POOLS if t != 'string:0:mc:u']
 # 'sequence:alt' is the data type `sequence` with a pool that holds several valid spellings of one number
